@@ -154,6 +154,8 @@ fn main() {
             "T32u64u64" => tree_cmd::<tree::T32u64u64>(&a),
             "T32i64u64" => tree_cmd::<tree::T32i64u64>(&a),
             "T32logu8" => tree_cmd::<tree::T32logu8>(&a),
+            "T32a32u64" => tree_cmd::<tree::T32a32u64>(&a),
+            "T8a32a32" => tree_cmd::<tree::T8a32a32>(&a),
             t => panic!("unknown tree type {t}"),
         },
         "hset" => match a.get("type").unwrap_or("HU64") {
@@ -161,6 +163,7 @@ fn main() {
             "HU32" => hset_cmd::<hset::HU32>(&a),
             "HU8" => hset_cmd::<hset::HU8>(&a),
             "HWeak" => hset_cmd::<hset::HWeak>(&a),
+            "HA32" => hset_cmd::<hset::HA32>(&a),
             t => panic!("unknown hset type {t}"),
         },
         "aset" => match a.get("type").unwrap_or("A8u8") {
